@@ -321,3 +321,16 @@ func Garbage[T any](salt int) T {
 	}
 	return z
 }
+
+// valueCtx is a valid context.Context passed BY VALUE whose dynamic type is not comparable (it has
+// a slice field): code that compares contexts with == panics on it at run time.
+type valueCtx struct {
+	context.Context
+	tags []string
+}
+
+// ByValue wraps ctx in a by-value context of a non-comparable dynamic type. Everything else (Done,
+// Err, Deadline, Value) is ctx's.
+func ByValue(ctx context.Context) context.Context {
+	return valueCtx{ctx, []string{"verif: by-value context"}}
+}
